@@ -276,7 +276,7 @@ CHUNK_LOOP_INV = [
     ("consumed_so_far", "PLf() + T == E * self._frame_shift + total_len"),
     ("hist", "hist_len == min(self._frame_length, E * self._frame_shift + buf_len)"),
     ("buf_content", "forall(k, self._frame_length - hist_len, self._frame_length, self._buf[k] == Q(E * self._frame_shift + buf_len - self._frame_length + k))"),
-    ("chunk_is_suffix", "OFF(chunk) == n - chunk_len"),
+    ("chunk_is_suffix", "OFF(chunk) == n - chunk_len and chunk_len <= n"),
     ("shift", "frame_shift == self._frame_shift"),
 ]
 
@@ -304,3 +304,46 @@ def contract_chunk():
     c.no_param_writes = True
     c.canaries = [("emits_one_frame_more", "result.shape[0] == rows + 1"), ("inv_E_off_by_one", "implies(not self._first_frame, E + 1 == (SLf() - self._frame_length) // self._frame_shift + 1)")]
     return c
+
+
+# ------------------------------------------------------------------------------------------
+# solver model -> concrete inputs for the C01 stand-in's replay (real code, chunked vs whole)
+# ------------------------------------------------------------------------------------------
+
+
+def _mode_of(ob):
+    for m in MODES:
+        if ob.id.endswith(f"[{m}]"):
+            return m
+    return None
+
+
+def to_case_stream(ob):
+    """The model's (L, s) and framing mode are kept; its signal length / chunk split are tried first and then
+    a neighbourhood (every N <= 3L+2, whole / single-sample / every two-part split) - an inductive-step model
+    need not be a reachable state, the replay decides on the real code."""
+    from pyvc.solve import model_int
+    mode = _mode_of(ob)
+    L, s = model_int(ob.model, "L"), model_int(ob.model, "s")
+    if mode is None or L is None or s is None or not (1 <= s <= L <= 24):
+        return None
+    T = model_int(ob.model, "T", 0) or 0
+    n = model_int(ob.model, "n", None)
+    N0 = model_int(ob.model, "N", None)
+    base = {"computer": "stft", "frame_style": "causal" if mode == "causal" else "centered", "kaldi_shift": mode == "kaldi",
+            "frame_length": L, "frame_shift": s, "sampling_rate": 1000, "bank": "fbank1", "seed": 0}
+    cases = []
+    if n is not None and T >= 0 and n >= 0 and T + n <= 200:
+        cases.append(dict(base, N=T + n, chunks=[T, n]))
+    if N0 is not None and 0 <= N0 <= 200:
+        cases.append(dict(base, N=N0, chunks=[N0]))
+    for N in range(0, 3 * L + 3):
+        cases.append(dict(base, N=N, chunks=[N]))
+        if N:
+            cases.append(dict(base, N=N, chunks=[1] * N))
+        for c in range(1, N):
+            cases.append(dict(base, N=N, chunks=[c, N - c]))
+    return cases[:4000]
+
+
+to_case_full = to_case_finalize = to_case_chunk = to_case_stream
